@@ -337,6 +337,13 @@ impl<'a> Gen<'a> {
         }
     }
     fn real_lit(&mut self) -> Card {
+        // half of the literals are non-integral reals next to the small integers of int_lit (-3..8), negative ones
+        // included: comparison and arithmetic coercions between an integer and the real whose truncation it is
+        if self.rng.chance(1, 2) {
+            let near = [-0.5f64, -2.5, -1.5, -0.25, -1.75, -2.999, 0.5, 1.5, 2.5, 7.5, -3.5];
+            self.feat("real.near_small_int");
+            return CardBody::ScalarFloat(*self.rng.pick(&near)).into();
+        }
         let xs = [0.5f64, 2.0, -1.5, 0.1, 1e300, -0.0, 3.0, 9007199254740993.0, 1e-310, 1.7e308];
         CardBody::ScalarFloat(*self.rng.pick(&xs)).into()
     }
@@ -483,6 +490,15 @@ impl<'a> Gen<'a> {
                 let ops: [fn(Box<[Card; 2]>) -> CardBody; 4] =
                     [CardBody::Less, CardBody::LessOrEq, CardBody::Equals, CardBody::NotEquals];
                 let f = *self.rng.pick(&ops);
+                if self.reals && self.rng.chance(1, 3) {
+                    // an integer (or nil = 0) against a real within one of it, either side, either sign
+                    let k = self.rng.range(-3, 4);
+                    let r = k as f64 + *self.rng.pick(&[-0.75f64, -0.5, -0.25, 0.0, 0.25, 0.5, 0.75][..]);
+                    let i = if k == 0 && self.rng.chance(1, 3) { CardBody::ScalarNil.into() } else { int(k) };
+                    self.feat("compare.int_vs_near_real");
+                    let rc: Card = CardBody::ScalarFloat(r).into();
+                    return if self.rng.chance(1, 2) { bin(f, i, rc) } else { bin(f, rc, i) };
+                }
                 let (a, b) = (self.any_or_tab(fx, d1), self.any_or_tab(fx, d1));
                 bin(f, a, b)
             }
@@ -1239,7 +1255,7 @@ pub fn gen_program(rng: &mut Rng, feats: &mut BTreeMap<String, u64>, allow_shado
     globals.push(Var { name: "t0".into(), k: K::Tab, ro: false, global: true });
     globals.push(Var { name: "t1".into(), k: K::Tab, ro: false, global: true });
     globals.push(Var { name: "gf".into(), k: K::Fn(1, 0), ro: false, global: true });
-    let reals = rng.chance(1, 4);
+    let reals = rng.chance(1, 3);
     let shadow = allow_shadow && rng.chance(1, 3);
     let budget = 60 + rng.below(200) as i32;
     let mut g = Gen { rng, sigs, mods, globals, budget, nv, reals, shadow, feats: BTreeMap::new() };
